@@ -428,6 +428,40 @@ func (Prop) Generate(r *fw.Rand, tier string) []fw.Case {
 			prev = u
 		}
 		cases = append(cases, fw.Case{Ops: []string{"fbatch " + strings.Join(hs, ",")}, Tags: []string{"float"}})
+		// the same patterns (rarely a NaN, which the encoders must refuse) against the model: encoder bytes, decoder on the encoding and on damaged ones
+		{
+			var us []uint64
+			var ds []string
+			for _, h := range hs {
+				u, _ := strconv.ParseUint(h, 16, 64)
+				// (infinities are not generated: the parser admits none, and the batch encoder
+				// takes a block holding both infinities for one holding a NaN)
+				if r.Intn(400) == 0 {
+					u = []uint64{0x7FF8000000000001, 0x7FF0000000000001, 0xFFF8000000000000, 0x7FFFFFFFFFFFFFFF}[r.Intn(4)]
+				}
+				us = append(us, u)
+				ds = append(ds, strconv.FormatUint(u, 10))
+			}
+			if r.Intn(40) == 0 {
+				us, ds = nil, []string{"-"}
+			}
+			ops := []string{"fenc " + strings.Join(ds, ",")}
+			var src []float64
+			for _, u := range us {
+				src = append(src, math.Float64frombits(u))
+			}
+			if fb, err := tsm1.FloatArrayEncodeAll(src, nil); err == nil {
+				ops = append(ops, "fdec "+hx(fb))
+				for k := 0; k < 3; k++ {
+					if m := mutate(r, fb); len(m) > 0 {
+						ops = append(ops, "fdec "+hx(m))
+					} else {
+						ops = append(ops, "fdec -")
+					}
+				}
+			}
+			cases = append(cases, fw.Case{Ops: ops, Tags: []string{"float-model"}})
+		}
 		if i%3 == 0 {
 			var ss []string
 			for k := 0; k < 1+n/8; k++ {
@@ -654,6 +688,46 @@ func runOp(op string) (out string) {
 			return "err"
 		}
 		return "ok " + s
+	case "fenc":
+		// floats as 64-bit patterns in decimal ("-" = none): the iterator encoder's bytes; the
+		// batch encoder must give the same bytes or refuse the same input
+		var src []float64
+		if f[1] != "-" {
+			for _, u := range parseCsv(f[1]) {
+				src = append(src, math.Float64frombits(u))
+			}
+		}
+		enc := tsm1.NewFloatEncoder()
+		for _, v := range src {
+			enc.Write(v)
+		}
+		enc.Flush()
+		b1, e1 := enc.Bytes()
+		b2, e2 := tsm1.FloatArrayEncodeAll(src, nil)
+		if (e1 != nil) != (e2 != nil) || e1 == nil && !bytes.Equal(b1, b2) {
+			return fmt.Sprintf("encoders-differ %v %v", e1, e2)
+		}
+		if e1 != nil {
+			return "err"
+		}
+		return "ok " + hx(b1)
+	case "fdec":
+		var b []byte
+		if f[1] != "-" {
+			b = unhx(f[1])
+		}
+		var dec tsm1.FloatDecoder
+		if err := dec.SetBytes(b); err != nil {
+			return "err"
+		}
+		var got []uint64
+		for dec.Next() {
+			got = append(got, math.Float64bits(dec.Values()))
+		}
+		if dec.Error() != nil {
+			return "err"
+		}
+		return "ok " + csv(got)
 	case "fbatch":
 		// floats as 64-bit patterns (hex csv): the iterator encoder and the batch encoder, each
 		// read back by the iterator decoder and by the array decoder, bit for bit
@@ -916,8 +990,11 @@ func (Prop) Oracle(c fw.Case, out []string) fw.Verdict {
 			if c > 2*m+3*(1<<20) {
 				return fw.Verdict{OK: false, Why: fmt.Sprintf("%s: buffer of %d bytes for %d bytes present (claimed %d)", op, c, p, n), Signature: "WAL reader sizes its buffer by the claimed length"}
 			}
-		case "tenc", "ienc", "benc":
+		case "tenc", "ienc", "benc", "fenc":
 			// the next op decodes exactly these bytes
+			if strings.HasPrefix(o, "encoders-differ") {
+				return fw.Verdict{OK: false, Why: op[:min(len(op), 200)] + " => " + o, Signature: "float encoders differ"}
+			}
 			if o == "err" {
 				// an encoder error is acceptable only if it is not silently lossy: nothing was emitted
 				continue
